@@ -22,8 +22,10 @@ blocks + {export, export-append}, root node and a nested node: see ``sequences``
 from __future__ import annotations
 
 import itertools
+import os
 import shutil
 import tempfile
+import time
 from pathlib import Path
 
 import numpy as np
@@ -252,9 +254,12 @@ def replay_ds(ob):
     else:
         fmts = DS_FORMATS
     tmp = Path(tempfile.mkdtemp(prefix="rt_c11."))
+    deadline = _deadline()
     try:
         for fmt in fmts:
             for ids in ds_scenarios(3):
+                if time.time() > deadline:
+                    return None
                 try:
                     r = run_ds(fmt, ids, tmp)
                 except Exception as e:  # noqa: BLE001
@@ -275,19 +280,40 @@ def _relevant(func: str, seq):
     return True
 
 
+def _deadline():
+    """Wall-clock budget of ONE search (the enumerations are deterministic and shortest-first: the witnesses of the known defects are found within a few
+    seconds); RT_C11_BUDGET seconds, default 30 - as contracts/rt_c05.py does.  A search that runs out of budget returns None (no witness)."""
+    return time.time() + float(os.environ.get("RT_C11_BUDGET", "30"))
+
+
+_MEMO: dict = {}  # one search per (function, search family) and process: the searches only depend on the function, not on the single obligation
+
+
 def replay(ob, seed=0):
     from contracts import rt_c12  # backup clauses (contracts/c12_backup_clauses.py): scenario-level replay with a history backup on a real file
+
+    key = (ob.func, rt_c12.search_family(ob) if rt_c12.handles(ob.func) else "")
+    if key not in _MEMO:
+        _MEMO[key] = _replay(ob, seed)
+    return _MEMO[key]
+
+
+def _replay(ob, seed=0):
+    from contracts import rt_c12
 
     if rt_c12.handles(ob.func):
         return rt_c12.replay(ob, seed)
     if _is_ds_function(ob.func):
         return replay_ds(ob)
     tmp = Path(tempfile.mkdtemp(prefix="rt_c11."))
+    deadline = _deadline()
     try:
         for node in NODES:
             for seq in sequences(3):
                 if not _relevant(ob.func, seq):
                     continue
+                if time.time() > deadline:
+                    return None
                 try:
                     r = run(node, seq, tmp)
                 except Exception as e:  # noqa: BLE001
